@@ -54,9 +54,11 @@ theorem allKeys_not_ownColumn : ¬ OwnColumn (fun s => s) List.head? := by
 /-! ## 2. conditions, rows -/
 
 /-- AND/OR tree over `column op literal` atoms (what the parser produces for a WHERE clause;
-`ConvertToRPNExpr` keeps the operand order of such atoms). -/
+`ConvertToRPNExpr` keeps the operand order of such atoms): `atom` for `=` / match-phrase, `atomO`
+for the comparisons no filter lookup decides. -/
 inductive WFB : BCond → Prop
   | atom (n : Nat) (b : BLit) : WFB (.bin .cmp (.var n) (.lit b))
+  | atomO (n : Nat) (b : BLit) : WFB (.bin .cmpo (.var n) (.lit b))
   | and {l r : BCond} : WFB l → WFB r → WFB (.bin .and l r)
   | or {l r : BCond} : WFB l → WFB r → WFB (.bin .or l r)
   | paren {e : BCond} : WFB e → WFB (.paren e)
@@ -64,6 +66,7 @@ inductive WFB : BCond → Prop
 theorem WFB.wfc {c : BCond} (h : WFB c) : WFC c := by
   induction h with
   | atom n b => exact .atom n b
+  | atomO n b => exact .atomO n b
   | and _ _ ihl ihr => exact .and ihl ihr
   | or _ _ ihl ihr => exact .or ihl ihr
   | paren _ ih => exact .paren ih
@@ -124,6 +127,7 @@ theorem lineHitK_sound (keys : Nat → Bool) (fc : Nat) (hown : ∀ n, keys n = 
       simp only [Option.map_some, Option.some.injEq, Bool.and_eq_true, Bool.not_eq_true']
       exact ⟨by cases ls <;> simp_all, allHit_of_subset pos _ ls hsub⟩
     · simp only [hm]; exact ⟨⟨_, rfl⟩, fun _ => rfl⟩
+  | atomO n b => intro _; simp [lineHitK]
   | @and l r _ _ ihl ihr =>
     intro hc
     rw [atomsOf_and _ _ _ (Or.inl rfl)] at hc
@@ -258,6 +262,7 @@ theorem lineHit_eq_lineHitK (sp : Nat → Bool) (pos : Nat → List Nat) (f : Li
       | some b => cases b <;> rfl
     | cmp =>
       cases l <;> cases r <;> simp [lineHit, lineHitK]
+    | cmpo => simp [lineHit, lineHitK]
     | cmpns => simp [lineHit, lineHitK]
     | bad => simp [lineHit, lineHitK]
 
@@ -460,6 +465,7 @@ theorem evalB_true_on (inSchema : Nat → Bool) (ans : Nat → BLit → Option B
     cases hi : inSchema n
     · simp
     · simpa [satE] using hc (n, b) (by simp [atomsOf]) hi
+  | atomO n b => intro _; simp [evalE]
   | @and l r _ _ ihl ihr =>
     intro hc
     rw [atomsOf_and _ _ _ (Or.inl rfl)] at hc
